@@ -1276,7 +1276,21 @@ stoAllocInner(ULong nbytes, PgKind pgkind)
 	npages	= 1;
 	assert(nbytes <= npages*PgSize);
 	npcs  = (npages*PgSize)/nbytes;
-	pages = pagesGet(npages);
+	{
+		/*
+		 * The caller is in the middle of changing the free-piece index
+		 * (mxmemLink, btreeInsertX): the piece it is entering is neither
+		 * busy nor flagged free nor linked, and the search that decided
+		 * to add a new key has already been made.  A collection started
+		 * here by pagesGet sweeps the heap in that state.  Grow the heap
+		 * instead of collecting.
+		 */
+		Bool	lvl = gcLevel;
+		if (gcLevel == StoCtl_GcLevel_Automatic)
+			gcLevel = StoCtl_GcLevel_Demand;
+		pages = pagesGet(npages);
+		gcLevel = lvl;
+	}
 
 	if (pages == 0) {
 #ifdef STO_LONGJMP
